@@ -49,7 +49,7 @@ def union_targets():
 EXTRA_V = [datetime.datetime(2020, 1, 2, 3, 4, 5), datetime.date(2020, 1, 2), datetime.time(3, 4, 5), datetime.timedelta(seconds=90),
            "2020-01-02", "2020-01-02 03:04:05", "2020-01-02T03:04:05Z", "03:04:05", 1577934245, 1577934245.5, "1577934245",
            "12345678-1234-5678-1234-567812345678", 1, "g", "R", "P1DT2H", "1:30:00", b"2020-01-02", Decimal("90.5"), True, None,
-           [1], "1+2j", (1, 2),
+           [1], "1+2j", (1, 2), 1.5, 2.5, 2.75, Decimal("1.5"), Decimal("2.75"), 1.0, Decimal("2"),
            "2020-02-20 00:00:00.250000", "2020-02-20T00:00:00.000001", "2020-02-20 00:00:00", "2020-02-20T00:00:01",
            datetime.datetime(2020, 2, 20, 0, 0, 0, 250000), datetime.datetime(2020, 2, 20), datetime.datetime(2020, 2, 20, 0, 0, 1),
            b"2020-02-20 00:00:00.5"]
@@ -165,6 +165,10 @@ def judge(t, v):
             if t is int and isinstance(v, (float, Decimal)) and not isinstance(v, bool):
                 if not (v == r[1]):
                     return "no_data_loss: %r became the int %r" % (v, r[1])
+            if isinstance(t, type) and issubclass(t, enum.Enum) and issubclass(t, int) and isinstance(v, (float, Decimal)) \
+                    and not isinstance(v, bool) and not (v == r[1].value):
+                # the same promise through an Enum whose members are ints
+                return "no_data_loss: %r became %r (value %r)" % (v, r[1], r[1].value)
             if t is bool and not isinstance(v, bool):
                 ok = False
                 try:
@@ -300,7 +304,12 @@ def main(tier, seed):
         kw = {}
         if fl & 1: kw["no_data_loss"] = True
         if fl & 2: kw["no_explicit_cast"] = True
-        cases.append(dict(spec=spec, options=kw, value=source_value(rng)))
+        v = source_value(rng)
+        if spec[0] == "tuple" and rng.random() < 0.5:
+            # extra items under an explicit addition policy (no_data_loss rejects them whatever `addition` says)
+            kw["addition"] = rng.choice([True, True, False])
+            v = rng.choice([(1, "a", "3"), [1, "a", 2, 3], (1, "a"), ("2", 5, None), v])
+        cases.append(dict(spec=spec, options=kw, value=v))
     parsesuite.run_suite(res, cases, "convert-grid",
                          rule="builtin targets and one-level containers x source values of every kind x the four flag combinations, "
                               "type_transform compared with Model/Conv.v conv_prim / the parse model")
